@@ -18,7 +18,7 @@ LEVEL_TEXT = ('Bounded symbolic verification on the real protocol object in Open
               'exactly as the one before it, and afterwards the agent is in session or closed with its reconnect pending.')
 LEVEL_NOTE = ('Bodies are structured and short (<= 6 symbolic octets at session level); deep bodies are C11. Mutation corpora are outside '
               'this technique. Twisted as modelled.')
-LEVEL_ADDED = 'Also: well-framed messages of unknown type; the hostile message arrives 20 s after the last one and a (malformed) UPDATE of legal length must restart the hold timer; UPDATE frames shorter than 23 octets are header errors. The hostile message with a good one behind it in the same TCP segment (differential against separate segments); BGP-LS MP_REACH / MP_UNREACH with hostile NLRI TLV headers. Obligations in which the close the agent asked for completes and the reconnection must still be scheduled; quick tier: MP_REACH / MP_UNREACH headers for arbitrary address families.'
+LEVEL_ADDED = 'Also: well-framed messages of unknown type; the hostile message arrives 20 s after the last one and a (malformed) UPDATE of legal length must restart the hold timer; UPDATE frames shorter than 23 octets are header errors. The hostile message with a good one behind it in the same TCP segment (differential against separate segments); BGP-LS MP_REACH / MP_UNREACH with hostile NLRI TLV headers. Obligations in which the close the agent asked for completes and the reconnection must still be scheduled; quick tier: MP_REACH / MP_UNREACH headers for arbitrary address families. A malformed UPDATE of exactly 4096 octets.'
 TECHNIQUE = 'symbolic execution of BGP.dataReceived with symbolic message bodies between reference messages (CrossHair+z3), containment oracle'
 EXPLANATION = 'C10: symbolic hostile bodies through dataReceived in each session state, containment oracle.'
 BOUNDS = 'body <= 8 octets of which <= 6 symbolic; attribute type codes enumerated (24); states OpenSent/OpenConfirm/Established'
